@@ -26,7 +26,7 @@ def _strategy():
         txs = []
         for _ in range(ntx):
             op = draw(st.sampled_from(["read", "read", "write"]))
-            tx = {"op": op, "data_seed": draw(st.integers(0, 10 ** 6)), "gap_after": draw(st.sampled_from([0.02, 0.05, 0.3]))}
+            tx = {"op": op, "data_seed": draw(st.integers(0, 10 ** 6)), "gap_after": draw(st.sampled_from([0.001, 0.001, 0.02, 0.05, 0.3]))}
             if op == "read":
                 tx["signed"] = draw(st.booleans())
                 tx["raw"] = draw(st.booleans())
